@@ -4,7 +4,7 @@ open GV GV.C08
 /-
 Line protocol (one case per line):
 
-  seq <disc> <disc> ...             disc = name:in1,in2>out1,out2   (`-` for an empty list)
+  seq <disc> <disc> ...             disc = name:in1,in2>out1,out2[~state1,state2]   (`-` for an empty list)
     -> seq=<stages `|` groups `;` members `,`> strong= weak= all= scd= wcd= scd0= grp= self= ic= oc= ica= oca=
   chain <mode> <ldisc> ... | x=1/2 ...
        ldisc = name:in1,in2>out1=c;in1=a;in2=b,out2=c   mode = mdo | seqchain | mda | mdapar | mdags
@@ -20,7 +20,11 @@ def parseDisc (t : String) : Option Disc :=
   match t.splitOn ":" with
   | [n, io] =>
     match io.splitOn ">" with
-    | [i, o] => some ⟨n, parseNames i, parseNames o⟩
+    | [i, os] =>
+      match os.splitOn "~" with
+      | [o] => some ⟨n, parseNames i, parseNames o, []⟩
+      | [o, st] => some ⟨n, parseNames i, parseNames o, parseNames st⟩
+      | _ => none
     | _ => none
   | _ => none
 
@@ -75,7 +79,7 @@ def parseLinDisc (t : String) : Option LinDisc :=
     match io.splitOn ">" with
     | [i, o] => do
       let outs ← (if o = "-" then some [] else (o.splitOn ",").mapM parseLinOut)
-      some ⟨⟨n, parseNames i, outs.map (·.name)⟩, outs⟩
+      some ⟨⟨n, parseNames i, outs.map (·.name), []⟩, outs⟩
     | _ => none
   | _ => none
 
